@@ -28,6 +28,13 @@ CLAIMED = {
   "note": "Trusted base: the reference acceptor is a transcription of the documented flows and of the property statement by the same author as the harness (limited independence); message contents within a kind are sampled.",
   "technique": "deterministic simulation: seeded two-peer conversations with message-level fault injection, step-by-step agreement with a reference flow acceptor",
  },
+ "C09": {
+  "category": "exploration",
+  "text": "The serializer is the one place where both ends of the wire are real code and where the crate meets an I/O trait: the check runs the real gen_* serializers as sending node writing through a simulated std::io::Write sink (short writes, zero writes, EINTR, hard errors at an arbitrary byte, fixed-size buffers) and the real parsers as receiving node, over seeded values within the wire limits. Fault-free sink: Ok, bytes equal to an independent reference encoder (which decides every emitted length field), parse-back consumes everything and yields the sent value modulo the documented normalisations, re-serialisation is stable, unsupported values answer NotYetImplemented. Faulty sink (narrow): the call may fail, but Ok implies the sink holds the complete fault-free encoding. Values are sampled: evidence, not proof.",
+  "design_ref": "DESIGN.md section 3 (C09)",
+  "note": "Trusted base: the reference encoder and the value walker; the serialize feature is built by this check (it is not in the 42-test baseline); cookie-factory is a real dependency, not modelled.",
+  "technique": "deterministic simulation: real serializer -> fault-injecting Write sink -> real parser, byte oracle from a reference encoder, seeded sink fault positions",
+ },
  "C16": {
   "category": "exploration",
   "text": "The argument of the many-parsers in a real reader is the receive buffer: n complete records followed by whatever the network has delivered so far. The simulated monitor applies tls_parser_many (and parse_dtls_plaintext_records on datagrams) to its buffer at every delivery event of seeded streams with truncation, oversize headers, length lies, garbage and corruption, and compares with an explicit loop over the single-record parser (list, remainder by address, fails iff the first record fails); tls_parser is compared with parse_tls_plaintext as full results on every buffer.",
@@ -39,6 +46,5 @@ CLAIMED = {
 PENDING = {
  "C01": "claimed in DESIGN.md; check not built yet in this revision",
  "C06": "claimed in DESIGN.md; check not built yet in this revision",
- "C09": "claimed in DESIGN.md; check not built yet in this revision",
  "C10": "claimed in DESIGN.md; check not built yet in this revision",
 }
